@@ -226,7 +226,7 @@ def op_list(draw, max_modules=8, max_ops=30, with_save_load=False):
     kinds = ["rshift", "lshift", "rshift_dis", "lshift_dis", "rshift_list", "lshift_list", "chain_r", "chain_l", "mlist_r_dis", "mlist_r_list", "mlist_l_list", "chain_r_list", "chain_l_list", "connect", "connect_single", "x", "new"]
     weights = kinds + ["rshift", "lshift", "rshift_dis", "lshift_dis", "connect", "connect", "rshift_list"]
     if with_save_load:
-        weights = weights + ["save_load", "save_load", "save_load"]
+        weights = weights + ["save_load", "save_load", "save_load", "save", "save"]
     idx = lambda: draw(st.integers(0, n - 1))  # noqa: E731
     idxs = lambda lo=1, hi=4: draw(st.lists(st.integers(0, n - 1), min_size=lo, max_size=hi, unique=True))  # noqa: E731
     for _ in range(k):
@@ -258,6 +258,8 @@ def op_list(draw, max_modules=8, max_ops=30, with_save_load=False):
             ops.append(["x", draw(st.sampled_from(["rshift", "lshift", "connect_to", "connect_from", "connect_list", "dis"])), idx(), draw(st.integers(1, 2))])
         elif kind == "save_load":
             ops.append(["save_load"])
+        elif kind == "save":
+            ops.append(["save"])
     return {"types": types, "ops": ops}
 
 
@@ -287,6 +289,13 @@ def run_ops(ctx, case, prop="C07", on_save_load=None):
             if on_save_load is None:
                 continue
             on_save_load(world, E, step, labels)
+            continue
+        if op[0] == "save":
+            # saving (result discarded) must leave the tables exactly as they are
+            world.project.read()
+            if lm.tables(world.project) != before:
+                raise PropertyViolation(prop + ".save_changes_tables", "step %d: saving changed the link tables: %r -> %r" % (step, before, lm.tables(world.project)))
+            labels.add("save_midway")
             continue
         prs = lm.pairs_of_op(op)
         for f, t, dis in prs:
